@@ -33,9 +33,22 @@ def status_table():
             rows.append("| %s | — | — | not claimed: %s |" % (pid, NOT_APPLICABLE.get(pid, "")))
     return "\n".join(rows)
 
+def fixed_table():
+    kf = json.load(open(os.path.join(VERIF, "known_findings.json")))
+    rows = ["Repaired in `/repo` (one `fix:` commit each; the library's own suite passes unedited after each):", ""]
+    for f in kf.get("fixed", []):
+        m = re.match(r"fixed: property=(\S+) (\S+) (.*)", f)
+        if m:
+            txt = " ".join(m.group(3).split())
+            rows.append("* **%s** `%s` — %s" % (m.group(1), m.group(2), (txt[:330] + "…") if len(txt) > 330 else txt))
+    rows += ["", "Recorded, not repaired (the check prints `KNOWN-FINDING` for each and exits 0):", ""]
+    for f in kf.get("findings", []):
+        rows.append("* **%s** `%s` — %s  *Disposition:* %s" % (f["property"], f["id"], " ".join(f["what"].split())[:300], " ".join(f.get("disposition", "").split())[:260]))
+    return "\n".join(rows)
+
 def main():
     p = os.path.join(VERIF, "DESIGN.md"); s = open(p).read()
-    for key, fn in (("seeded", seeded_table), ("status", status_table)):
+    for key, fn in (("seeded", seeded_table), ("status", status_table), ("fixed", fixed_table)):
         pat = re.compile(r"(<!-- BEGIN %s -->\n).*?(<!-- END %s -->)" % (key, key), re.S)
         if pat.search(s): s = pat.sub(lambda m: m.group(1) + fn() + "\n" + m.group(2), s)
     open(p, "w").write(s)
